@@ -824,6 +824,45 @@ func init() {
 				})
 				return out, nil
 			}
+			// who starts scans in package kv: every `.Iterator()` call of the non-test, non-hook files, "<file>:<func>"
+			kvEnts, err := os.ReadDir(filepath.Join(repo, "kv"))
+			if err != nil {
+				return "", err
+			}
+			var scanSites []string
+			for _, e := range kvEnts {
+				name := e.Name()
+				if e.IsDir() || !strings.HasSuffix(name, ".go") || strings.HasSuffix(name, "_test.go") ||
+					strings.HasSuffix(name, "_mock.go") || strings.HasPrefix(name, "zz_verif") {
+					continue
+				}
+				f, err := parse("kv/" + name)
+				if err != nil {
+					return "", err
+				}
+				for _, d := range f.Decls {
+					fd, ok := d.(*ast.FuncDecl)
+					if !ok || fd.Body == nil {
+						continue
+					}
+					ast.Inspect(fd.Body, func(n ast.Node) bool {
+						if c, ok := n.(*ast.CallExpr); ok {
+							if sel, ok := c.Fun.(*ast.SelectorExpr); ok && sel.Sel.Name == "Iterator" && len(c.Args) == 0 {
+								scanSites = append(scanSites, name+":"+fd.Name.Name+":"+c02Text(sel.X))
+							}
+						}
+						return true
+					})
+				}
+			}
+			fmt.Fprintf(&sb, "/-- every `.Iterator()` call in package kv (non-test): \"<file>:<func>:<receiver>\" -/\n")
+			def("kvScanSites", scanSites)
+			mi, err := need(cj, "compactJob", "makeInputIterator")
+			if err != nil {
+				return "", err
+			}
+			fmt.Fprintf(&sb, "/-- compactJob.makeInputIterator: its calls in order -/\n")
+			def("makeInputIteratorCalls", c02Events(mi, c02Keep("snapshot.GetReader", "reader.Iterator", "table.NewMergedIterator")))
 			for _, m := range [][2]string{{"HasNext", "iteratorHasNextMoves"}, {"Key", "iteratorKeyMoves"}, {"Value", "iteratorValueMoves"}} {
 				mv, err := moves(m[0])
 				if err != nil {
